@@ -231,3 +231,12 @@ def items_for(rng, payload, cuts, pmt_pid, interleave=True, tail_other=True):
 
 def stream_line(pid, items, op="ser.stream"):
     return "%s %d %s" % (op, pid, fmt_val(items))
+
+
+def carrier_args(c):
+    return "%d %s %s" % (c["pf"], fmt_val([[t, h, b] for t, h, b in c["pre"]]), fmt_val(fmt_section(c["sec"])))
+
+
+def check_carriers(carriers):
+    """wf_carrierb of the Coq spec on every generated carrier; returns the list of booleans"""
+    return [r == "1" for r in vlib.run_model(["spec.hyp.carrier " + carrier_args(c) for c in carriers])]
